@@ -4,7 +4,9 @@ from __future__ import annotations
 from ..absint import Builtin, Cls, Const, Dct, Fn, Interp, Lst, Obj, Term, Tup, explore, is_call, mentions, run_method, show, subterms
 from ..model import Undecided
 from .common import lower_first
-from .driverworld import IE, IV, make_driver, make_vector
+from .driverworld import IE, IV
+from .clientworld import build_mirror, client_opts, make_client, msg, part
+from .common import public_get
 
 EXPLANATION = (
     "C06.KEY: the driver's dispatch is abstractly interpreted on an abstract driver (three vectors, two elements each) for new*Vector "
@@ -89,22 +91,6 @@ def rule_key(ctx):
     if not bad:
         ctx.holds("C06.KEY", f.short, f"{n} dispatch cases: only the named elements of the addressed, kind-matching property are written, in order", fi=f)
     ctx.exhaustive_domains.append("7 targets x 4 message kinds x 5 child lists on a constructed two-driver world")
-    # tables keyed by wire names
-    init = vec_base.methods["__init__"]
-    paths = run_method(p, init)
-    ok = False
-    for pa in paths:
-        elems = [e.data["value"] for e in pa.events if e.kind == "store" and e.data.get("attr") == "_elements"]
-        for e in pa.events:
-            if e.kind == "store" and e.data.get("attr") == "_elements_by_name" and elems:
-                v = e.data["value"]
-                if isinstance(v, Term) and v.op == "comp" and v.args[3] == "dict" and isinstance(v.args[0], Tup) and not v.args[2]:
-                    k, val = v.args[0].items
-                    it_ = v.args[1]
-                    base = it_.args[0].args[0] if isinstance(it_, Term) and it_.op == "call" and isinstance(it_.args[0], Term) and it_.args[0].op == "attr" and it_.args[0].args[1] in ("items", "values") else None
-                    if show(k) == show(val) + ".name" and base is elems[-1] and isinstance(val, Term) and val.op == "val":
-                        ok = True
-    ctx.check(ok, "C06.KEY", init.short, "_elements_by_name is keyed by each element's wire name", "the by-name element table is not {element.name: element} over all elements", fi=init, text="by-name-table")
 
 
 def rule_submit(ctx):
@@ -119,21 +105,23 @@ def rule_submit(ctx):
             n += 1
 
             def run(it: Interp):
-                client = Obj(None, label="<client>")
-                dev = Obj(p.cls("indi.client.device.Device"), {"name": Const("DEV"), "client": client}, label="cdev")
-                vec = Obj(vcls, {"name": Const("V1"), "device": dev}, label="cvec")
-                els = []
-                for nm, pend in zip(("A", "B"), pending):
-                    nv = Obj(None, {"binary_base64": Obj(None, label=f"<b64:{nm}>"), "format": Obj(None, label=f"<fmt:{nm}>"), "size": Obj(None, label=f"<size:{nm}>")}, label=f"<new:{nm}>") if pend else Const(None)
-                    els.append(Obj(ecls, {"name": Const(nm), "vector": vec, "_value": Const("old"), "_new_value": nv}, label=f"cel:{nm}"))
-                vec.attrs["elements"] = Dct([(Const(e.attrs["name"].v), e) for e in els])
+                # the mirror is produced by the real client from two definitions (a second property V2 and a second
+                # device E exist so that a wrongly addressed submit has something to hit)
+                cl, vecs, els_ = build_mirror(it, p, kind)
+                vec = vecs[("DEV", "V1")]
+                els = [els_[("DEV", "V1", nm)] for nm in ("A", "B")]
+                for e, nm, pend in zip(els, ("A", "B"), pending):
+                    e.label = f"cel:{nm}"
+                    if pend:
+                        nv = Obj(None, {"binary_base64": Obj(None, label=f"<b64:{nm}>"), "format": Obj(None, label=f"<fmt:{nm}>"), "size": Obj(None, label=f"<size:{nm}>")}, label=f"<new:{nm}>")
+                        it.run_function(Fn(e.cls.find_setter("value"), e), [nv], {})
+                del it.events[:]
                 it.els = els
-                return it.run_function(Fn(f, vec), [], {})
+                r = it.run_function(Fn(f, vec), [], {})
+                it.left = [nm for e, nm in zip(els, ("A", "B")) if not (isinstance(public_get(it, e, "has_new_value"), Const) and public_get(it, e, "has_new_value").v is False)]
+                return r
 
-            def pol(fi, node):
-                return fi.module.name == "indi.client.elements" and fi.name in ("has_new_value", "to_new_message", "reset_new_value")
-
-            paths = explore(p, run, {"inline": pol})
+            paths = explore(p, run, client_opts(p))
             ctx.paths_enumerated += len(paths)
             inst = f"{f.short}[{kind}Vector]"
             row = f"pending A={pending[0]} B={pending[1]}"
@@ -141,9 +129,9 @@ def rule_submit(ctx):
                 if pa.outcome != "return":
                     ctx.violated("C06.SUBMIT", inst, f"submit raises for [{row}]: {show(pa.value) if pa.value is not None else ''}", fi=f, text=f"raises:{kind}", witness=row)
                     continue
-                sends = pa.calls(method="send_message")
+                sends = [e for e in pa.calls(method="send_message") if isinstance(e.data["callee"], Fn) and isinstance(e.data["callee"].self_val, Obj) and e.data["callee"].self_val.label == "client"]
                 if len(sends) != 1:
-                    ctx.violated("C06.SUBMIT", inst, f"{len(sends)} messages are sent by one submit", fi=f, text=f"sends:{len(sends)}", witness=row)
+                    ctx.violated("C06.SUBMIT", inst, f"{len(sends)} messages are handed to the client's connection by one submit", fi=f, text=f"sends:{len(sends)}", witness=row)
                     continue
                 m = sends[0].data["args"][0]
                 want = p.class_constant(vcls, "new_message_class")
@@ -170,7 +158,7 @@ def rule_submit(ctx):
                 expect = [nm for nm, pend in zip(("A", "B"), pending) if pend]
                 if names != expect or not okparts:
                     ctx.violated("C06.SUBMIT", inst, f"the message carries parts {names} (values from the pending assignments: {okparts}), expected exactly the pending elements {expect}", fi=f, text=f"children:{names}:{expect}", witness=row)
-                left = [e.attrs["name"].v for e in pa.interp.els if not (isinstance(e.attrs["_new_value"], Const) and e.attrs["_new_value"].v is None)]
+                left = pa.interp.left
                 if left:
                     ctx.violated("C06.SUBMIT", inst, f"pending values of {left} are not cleared by submit (they would be sent again)", fi=f, text="not-cleared", witness=row)
     before = len([r for r in ctx.results if r.rule == "C06.SUBMIT" and r.verdict == "VIOLATED"])
@@ -190,7 +178,17 @@ def rule_ctor(ctx):
             ctx.undecided("C06.CTOR", inst, "new_message_class not bound to a class", fi=f)
             continue
         n += 1
-        paths = run_method(p, f, self_val=Term("param", "self", hint=ecls))
+        def run(it: Interp):
+            cl, vecs, els_ = build_mirror(it, p, kind, layout=(("DEV", "V1"),))
+            el = els_[("DEV", "V1", "B")]
+            nv = Obj(None, {"binary_base64": Obj(None, label="<b64>"), "format": Obj(None, label="<fmt>"), "size": Obj(None, label="<size>")}, label="<new>")
+            it.run_function(Fn(el.cls.find_setter("value"), el), [nv], {})
+            other = els_[("DEV", "V1", "A")]
+            it.run_function(Fn(other.cls.find_setter("value"), other), [Obj(None, {"binary_base64": Obj(None, label="<b64:other>"), "format": Obj(None, label="<fmt:other>"), "size": Obj(None, label="<size:other>")}, label="<new:other>")], {})
+            del it.events[:]
+            return it.run_function(Fn(f, el), [], {})
+
+        paths = explore(p, run, {"inline": lambda fi, node: False})
         ok = True
         for pa in paths:
             v = pa.value
@@ -202,25 +200,23 @@ def rule_ctor(ctx):
             given = {k for k, _ in v.args[2] if k}
             for r in sig.required():
                 if r not in given:
-                    ctx.violated("C06.CTOR", inst, f"{target.name}(...) is built without the required parameter '{r}': submit() raises TypeError for every {kind} write", fi=f, text=f"{target.name}:missing:{r}", witness=f"assign a {kind} value, submit()")
+                    ctx.violated("C06.CTOR", inst, f"{target.name}(...) is built without the required parameter '{r}': submit() raises TypeError for every {kind} write", fi=f, text=f"{target.name}:missing:{r}", witness=f"{target.name}({', '.join(sorted(given))})")
                     ok = False
             for k in given:
                 if k not in sig.named():
                     ctx.violated("C06.CTOR", inst, f"keyword '{k}' is swallowed by **junk of {target.name}", fi=f, text=f"{target.name}:junk:{k}")
                     ok = False
             kw = dict((k, x) for k, x in v.args[2])
-            if show(kw.get("name", Const(None))) != "self.name":
-                ctx.violated("C06.CTOR", inst, "the part is not named after the element", fi=f, text=f"{kind}:name")
+            if show(kw.get("name", Const(None))) != "'B'":
+                ctx.violated("C06.CTOR", inst, f"the part is named {show(kw.get('name', Const(None)))}, the element is 'B'", fi=f, text=f"{kind}:name")
                 ok = False
-            val = kw.get("value")
-            if val is None or not mentions(val, lambda t: isinstance(t, Term) and t.op == "attr" and t.args[1] == "_new_value"):
-                ctx.violated("C06.CTOR", inst, "the part's value does not derive from the pending assignment", fi=f, text=f"{kind}:value")
-                ok = False
-            if kind == "BLOB":
-                for k, attr in (("value", "binary_base64"), ("size", "size"), ("format", "format")):
-                    if k in kw and show(kw[k]) != f"self._new_value.{attr}":
-                        ctx.violated("C06.CTOR", inst, f"BLOB part {k}= is {show(kw[k])[:40]}, expected the pending value's {attr}", fi=f, text=f"BLOB:{k}")
-                        ok = False
+            want = {"value": "<new>"} if kind != "BLOB" else {"value": "<b64>", "size": "<size>", "format": "<fmt>"}
+            for k, lab in want.items():
+                x = kw.get(k)
+                if not (isinstance(x, Obj) and x.label == lab):
+                    what = "the pending assignment" if kind != "BLOB" else f"the pending value's {({'value': 'binary_base64', 'size': 'size', 'format': 'format'})[k]}"
+                    ctx.violated("C06.CTOR", inst, f"the part's {k}= is {show(x)[:40] if x is not None else 'missing'}, expected {what}", fi=f, text=f"{kind}:{k}")
+                    ok = False
         if ok:
             ctx.holds("C06.CTOR", inst, f"{target.name}({', '.join(sorted(given))}) matches the part's constructor", fi=f)
     ctx.floor("C06.CTOR", "client element classes", n, 5)
@@ -260,27 +256,44 @@ def rule_coerce(ctx):
 
 
 def rule_conv(ctx):
+    """The driver-side element hands set_value exactly its kind's conversion of the child's text (numbers parsed with the
+    element's own declared format).  Evaluated on elements of the constructed driver."""
+    from .driverworld import _reachable_objs, build_drivers
     p = ctx.p
-    expect = {
-        "Number": lambda s: s.startswith("str_to_num(msg.value, self._definition.format)"),
-        "BLOB": lambda s: "from_base64(msg.value, msg.format)" in s,
-        "Text": lambda s: s == "msg.value",
-        "Switch": lambda s: s == "msg.value",
-        "Light": lambda s: s == "msg.value",
-    }
-    for kind, okf in expect.items():
+    where = {"Number": ("V2", "B"), "BLOB": ("V4", "A"), "Text": ("V1", "B"), "Switch": ("V3", "A"), "Light": ("V22", "A")}
+    for kind, (vn, en) in where.items():
         ecls = p.cls(f"{IE}.{kind}")
         f = ecls.find_method("set_value_from_message")
-        paths = run_method(p, f, self_val=Term("param", "self", hint=ecls))
+
+        def run(it: Interp):
+            drivers = build_drivers(it, p)
+            el = {o.label: o for o in _reachable_objs(drivers["DEVA"])}.get(f"el:DEVA.{vn}.{en}")
+            if el is None:
+                raise Undecided(f"constructed driver has no element {vn}.{en}")
+            it.el = el
+            m = Obj(p.cls(f"indi.message.one_parts.One{kind}"), {"name": Const(en), "value": Obj(None, label="<text>"), "format": Obj(None, label="<format>"), "size": Obj(None, label="<size>"), "__closed__": Const(True)}, label="child")
+            return it.run_function(Fn(f, el), [m], {})
+
+        paths = explore(p, run, {"inline": lambda fi, node: fi.kind == "getter" and fi.name in ("name", "vector", "device")})
+        ctx.paths_enumerated += len(paths)
         good = True
+        got = None
         for pa in paths:
             if pa.outcome != "return":
                 continue
             sv = pa.calls(method="set_value")
-            if len(sv) != 1 or not sv[0].data["args"] or not okf(show(sv[0].data["args"][0])):
+            a0 = sv[0].data["args"][0] if len(sv) == 1 and sv[0].data["args"] else None
+            recv = sv[0].data["callee"].self_val if len(sv) == 1 and isinstance(sv[0].data["callee"], Fn) else None
+            if kind == "Number":
+                okc = isinstance(a0, Term) and is_call(a0, func="str_to_num") and len(a0.args[1]) == 2 and isinstance(a0.args[1][0], Obj) and a0.args[1][0].label == "<text>" and isinstance(a0.args[1][1], Const) and a0.args[1][1].v == "%5.2f"
+            elif kind == "BLOB":
+                okc = isinstance(a0, Term) and is_call(a0, method="from_base64") and [getattr(x, "label", None) for x in a0.args[1]] == ["<text>", "<format>"]
+            else:
+                okc = isinstance(a0, Obj) and a0.label == "<text>"
+            if not okc or recv is not pa.interp.el:
                 good = False
-                got = show(sv[0].data["args"][0])[:60] if sv and sv[0].data["args"] else None
-        ctx.check(good, "C06.CONV", f"{f.short}[{kind}]", "set_value(<kind's conversion of msg.value>)", f"the {kind} element does not hand the conversion of the child's text to set_value" , fi=f, text=f"conv:{kind}")
+                got = show(a0)[:70] if a0 is not None else f"{len(sv)} set_value calls"
+        ctx.check(good, "C06.CONV", f"{f.short}[{kind}]", "set_value(<kind's conversion of msg.value>) on the element itself", f"the {kind} element hands {got} to set_value instead of its kind's conversion of the child's text (numbers: str_to_num(text, own format '%5.2f'); BLOB: from_base64(text, format))", fi=f, text=f"conv:{kind}")
 
 
 # 'subject only to the switch rule', addressing of the right device, and number text valid for any format is parsed
